@@ -11,6 +11,21 @@ package server
 // snapshots whose Persist runs concurrently with later applies, crash at arbitrary scheduling
 // points and restart from any snapshot-plus-replay split. Goroutines the state machine starts
 // (the consumer-group notification of a stream deletion) are simulator tasks of their node.
+//
+// Further behaviours, each in a share of the programs (program parameters, see genC06 / genC12):
+//   - install: a running, lagging node gets a snapshot of the reference installed (Restore over live
+//     state on the FSM task, log store dropped when it ends before the snapshot), as raft's
+//     InstallSnapshot does;
+//   - raftentries: raft's own entries (no-op, configuration, barrier) sit between the commands in the
+//     committed log; the FSM never sees them, the recovery-range detection has to skip them;
+//   - staleops: ISR requests carrying a deposed leader / a previous leader epoch / no leader, and leader
+//     changes to a replica outside the ISR (all pass the controller's precondition checks);
+//   - streamconfig, names: per-stream configuration, the server's reserved stream names, names and
+//     consumer ids that sort differently under different comparisons;
+//   - obscoord, ctimeout_ms: the nodes' own server ids are group coordinator candidates, so that the
+//     coordinator-only code runs (member liveness timers, served assignments). A timer that fires asks
+//     the controller to remove the member; the harness plays the controller (commitExpiries);
+//   - restartcheck: a settle and a full comparison right after half of the restarts.
 
 import (
 	"bytes"
@@ -27,6 +42,7 @@ import (
 	raftboltdb "github.com/hashicorp/raft-boltdb/v2"
 
 	"github.com/liftbridge-io/liftbridge/server/commitlog"
+	lblog "github.com/liftbridge-io/liftbridge/server/logger"
 	proto "github.com/liftbridge-io/liftbridge/server/protocol"
 
 	"verif.local/simrt"
@@ -38,7 +54,53 @@ var (
 	fsmBrokers   = []string{"b1", "b2", "b3"}
 	fsmGroups    = []string{"g1", "g2"}
 	fsmConsumers = []string{"c1", "c2", "c3", "c4"}
+
+	// Program parameter names=1: names whose order differs between byte-wise, numeric and case-insensitive
+	// comparison (the rebalance breaks ties by consumer id and walks streams in sorted order), and more
+	// consumers than a stream can have partitions plus one. The empty consumer id is left out: the API
+	// refuses it (api.go: "No consumerId provided"), so no committed sequence contains it.
+	fsmStreamsOdd   = []string{"s", "s10", "s9", "Sa"}
+	fsmConsumersOdd = []string{"c10", "c2", "C3", "c1", "c", "c02", "d", "c4"}
 )
+
+// avoidResumeAllPause keeps PAUSE_STREAM operations with ResumeAll=true out of the generated sequences.
+// FINDING (C06, genuine, not repaired here): a stream's resume-all mark (stream.resumeAll, set by
+// metadata.PausePartitions from the operation) is not part of Snapshot() (fsm.go: proto.Stream carries
+// name, subject, config, partitions, creation time only), so a server that rebuilds the stream from a
+// snapshot - at a restart or by an installed snapshot - has resumeAll=false where a server that applied
+// the pause live has true: after the same committed sequence a publish resumes every paused partition
+// on one server and only its own partition on the other. The clause (digest key "resume-all") stays;
+// with the switch off `bin/check C06` reports C06/restart-differs/resume-all and C06/live-differs/resume-all
+// within seconds (replays recorded with the switch off: /tmp/impl/C06-resumeall-restart.json,
+// /tmp/impl/C06-resumeall-install.json; they only reproduce with the switch off).
+const avoidResumeAllPause = true
+
+// fsmExpiry is a liveness timer of a group member that fired on a node which believes it coordinates the group.
+type fsmExpiry struct {
+	node            int
+	group, consumer string
+}
+
+// fsmSpyLogger delegates to the server's own logger and notes the expiry of group members: the
+// coordinator's timer callback asks the controller to remove the member; a never-started server has no
+// controller to ask (the request fails and the timer is re-armed), so the harness plays the controller
+// and commits the removal when the controller's own precondition check admits it.
+type fsmSpyLogger struct {
+	lblog.Logger
+	f *fsm
+	n *fsmNode
+}
+
+func (l *fsmSpyLogger) Errorf(format string, v ...interface{}) {
+	switch {
+	case strings.HasPrefix(format, "Consumer %s timed out for consumer group %s") && len(v) >= 2:
+		l.f.expired = append(l.f.expired, fsmExpiry{node: l.n.idx, consumer: fmt.Sprint(v[0]), group: fmt.Sprint(v[1])})
+		l.f.h.s.Count("probe.member_timer_fired")
+	case strings.HasPrefix(format, "Failed to remove consumer %s from consumer group"):
+		l.f.h.s.Count("probe.expiry_request_failed_timer_rearmed")
+	}
+	l.Logger.Errorf(format, v...)
+}
 
 type fsmSnap struct {
 	index uint64
@@ -69,6 +131,8 @@ type fsmNode struct {
 	restarts int
 	applyErr string
 	snapReq  *uint64           // pending snapshot request (value: trailing logs to keep)
+	instReq  *fsmSnap          // pending InstallSnapshot: Restore over the live state, on the FSM task
+	base     uint64            // the log store was emptied by an installed snapshot at this index: entries follow from base+1
 	known    uint64            // highest index this node ever knew to be committed (it applied it)
 	live     map[string]uint64 // stream -> index of the create this node applied last (its own view)
 }
@@ -80,6 +144,30 @@ type fsm struct {
 	created map[string]uint64 // reference model: existing streams -> index of their create
 	skipped int
 	ops     map[string]int
+
+	streams   []string            // stream names of this program
+	consumers []string            // consumer ids of this program
+	coords    []string            // group coordinator candidates (with obscoord=1 the FSM nodes' own ids are among them)
+	gcreate   map[string][]uint64 // group id -> indices of the operations that created it (its incarnations)
+	expired   []fsmExpiry         // member timers that fired and were not yet shown to the "controller"
+
+	// hooks of the property that uses the engine
+	onState func(n *fsmNode, srv *Server, idx uint64, how string) // on the node's task, after every apply and every Restore
+	onPoll  func(n *fsmNode, arg int64)                           // op "poll"
+}
+
+// serverID is the id of the server of FSM node i.
+func fsmServerID(i int) string { return fmt.Sprintf("observer%d", i) }
+
+// groupIncarnation returns the index of the operation that created the group as it exists after idx operations.
+func (f *fsm) groupIncarnation(gid string, idx uint64) uint64 {
+	var inc uint64
+	for _, c := range f.gcreate[gid] {
+		if c <= idx {
+			inc = c
+		}
+	}
+	return inc
 }
 
 func (f *fsm) newIncarnation(n *fsmNode) error {
@@ -90,15 +178,19 @@ func (f *fsm) newIncarnation(n *fsmNode) error {
 	crashed := h.do(n.node, fmt.Sprintf("fsm-start:%d", n.idx), func() {
 		c := NewDefaultConfig()
 		c.DataDir = n.dir
-		c.Clustering.ServerID = fmt.Sprintf("observer%d", n.idx)
+		c.Clustering.ServerID = fsmServerID(n.idx)
 		c.Clustering.Namespace = "sim"
 		c.LogSilent = true
+		// liveness timers of group members only run on the group's coordinator: nothing fires unless the
+		// program makes FSM nodes coordinators (obscoord) and shortens the timeout
+		c.Groups.ConsumerTimeout = time.Duration(h.prog.Param("ctimeout_ms", 2*3600*1000)) * time.Millisecond
 		c.Streams.SegmentMaxBytes = h.prog.Param("seg", 4096)
 		c.Streams.CleanerInterval = time.Hour
 		if err = os.MkdirAll(n.dir, 0o755); err != nil {
 			return
 		}
 		n.srv = New(c)
+		n.srv.logger = &fsmSpyLogger{Logger: n.srv.logger, f: f, n: n}
 		n.store, err = raftboltdb.NewBoltStore(filepath.Join(n.dir, "raft.db"))
 		if err != nil {
 			return
@@ -118,6 +210,9 @@ func (f *fsm) newIncarnation(n *fsmNode) error {
 // storeUpTo makes the node's log store hold every committed entry up to idx (what replication does).
 func (f *fsm) storeUpTo(n *fsmNode, idx uint64) error {
 	last, _ := n.store.LastIndex()
+	if last < n.base {
+		last = n.base
+	}
 	for i := last + 1; i <= idx; i++ {
 		cp := *f.log[i-1]
 		if err := n.store.StoreLog(&cp); err != nil {
@@ -131,7 +226,15 @@ func (f *fsm) storeUpTo(n *fsmNode, idx uint64) error {
 func (f *fsm) applyLoop(n *fsmNode, srv *Server) {
 	h := f.h
 	for {
-		simrt.WaitUntil("fsm-idle", func() bool { return n.srv == srv && (n.applied < n.target || n.snapReq != nil) })
+		simrt.WaitUntil("fsm-idle", func() bool {
+			return n.srv == srv && (n.applied < n.target || n.snapReq != nil || n.instReq != nil)
+		})
+		if req := n.instReq; req != nil {
+			// raft hands a snapshot sent by the leader to the FSM on the goroutine that calls Apply
+			n.instReq = nil
+			f.install(n, srv, req)
+			continue
+		}
 		if req := n.snapReq; req != nil {
 			// raft calls FSM.Snapshot on the goroutine that calls Apply: never concurrently with it
 			n.snapReq = nil
@@ -150,12 +253,21 @@ func (f *fsm) applyLoop(n *fsmNode, srv *Server) {
 			n.rf.SetCommit(n.target)
 		}
 		e := *f.log[idx-1]
+		if e.Type != raft.LogCommand {
+			// raft keeps its own entries (no-ops of new leaders, membership changes) in the same log; the FSM never sees them
+			n.applied = idx
+			n.busy = false
+			continue
+		}
 		resp := srv.Apply(&e)
 		if err, ok := resp.(error); ok && err != nil {
 			n.applyErr = fmt.Sprintf("apply %d: %v", idx, err)
 		}
 		n.applied = idx
 		f.noteApplied(n, idx)
+		if f.onState != nil && n.applyErr == "" {
+			f.onState(n, srv, idx, "apply")
+		}
 		// leave a marker message in a partition of a live stream now and then
 		if h.s.Choose(3, "marker") == 0 {
 			f.writeMarker(n, srv)
@@ -167,7 +279,7 @@ func (f *fsm) applyLoop(n *fsmNode, srv *Server) {
 
 func (f *fsm) noteApplied(n *fsmNode, idx uint64) {
 	op := &proto.RaftLog{}
-	if op.Unmarshal(f.log[idx-1].Data) != nil {
+	if f.log[idx-1].Type != raft.LogCommand || op.Unmarshal(f.log[idx-1].Data) != nil {
 		return
 	}
 	switch op.Op {
@@ -258,6 +370,65 @@ func (f *fsm) takeSnapshot(n *fsmNode, srv *Server, trailing uint64) {
 	})
 }
 
+// install is raft's InstallSnapshot on a running follower that lags behind the leader's compacted log:
+// Restore over the live state (on the FSM task, never concurrently with Apply), the snapshot is kept, a
+// log that ends before the snapshot is dropped.
+func (f *fsm) install(n *fsmNode, srv *Server, snap *fsmSnap) {
+	h := f.h
+	if snap.index <= n.applied {
+		return
+	}
+	n.busy = true
+	defer func() { n.busy = false }()
+	// raft has the received snapshot in its snapshot store before the FSM sees it: a crash from here on finds it
+	n.snaps = append(n.snaps, *snap)
+	if n.known < snap.index {
+		n.known = snap.index
+	}
+	if err := srv.Restore(io.NopCloser(bytes.NewReader(snap.data))); err != nil {
+		n.applyErr = fmt.Sprintf("Restore of an installed snapshot (index %d) over the state after %d operations: %v", snap.index, n.applied, err)
+		return
+	}
+	h.s.Logf("node %d (applied %d) installed a snapshot of index %d", n.idx, n.applied, snap.index)
+	h.s.Count("fault.snapshot_installed_over_live_state")
+	first, _ := n.store.FirstIndex()
+	last, _ := n.store.LastIndex()
+	if last <= snap.index {
+		if last > 0 && n.store.DeleteRange(first, last) != nil {
+			n.applyErr = "harness: DeleteRange failed"
+			return
+		}
+		n.base = snap.index
+	}
+	n.applied = snap.index
+	if n.target < snap.index {
+		n.target = snap.index
+	}
+	if n.rf.CommitIndex() < snap.index {
+		n.rf.SetCommit(snap.index)
+	}
+	n.live = map[string]uint64{}
+	for i := uint64(1); i <= n.applied; i++ {
+		f.noteApplied(n, i)
+	}
+	if f.onState != nil {
+		f.onState(n, srv, snap.index, "restore")
+	}
+}
+
+// refSnapshot takes a snapshot of the reference node (which has applied the whole committed log).
+func (f *fsm) refSnapshot() *fsmSnap {
+	ref := f.nodes[0]
+	ref.snaps = nil
+	f.snapshot(ref, 10240)
+	if !f.h.waitFor("reference-snapshot", time.Minute, func() bool { return len(ref.snaps) > 0 || len(f.h.s.Panics) > 0 }) || len(ref.snaps) == 0 {
+		return nil
+	}
+	cp := ref.snaps[0]
+	ref.snaps = nil
+	return &cp
+}
+
 // restart kills the incarnation at the current scheduling point and starts a new one on the same
 // directory: Restore from a persisted snapshot (or none), then replay.
 func (f *fsm) restart(n *fsmNode, snapChoice, commitChoice int64) error {
@@ -270,6 +441,8 @@ func (f *fsm) restart(n *fsmNode, snapChoice, commitChoice int64) error {
 	n.restarts++
 	h.s.Count("fault.server_restart")
 	snaps := n.snaps
+	// newest state last (a snapshot of the node's own that was persisted after a later one was installed sorts before it)
+	sort.SliceStable(snaps, func(i, j int) bool { return snaps[i].index < snaps[j].index })
 	n.snaps = nil
 	n.srv = nil
 	if err := f.newIncarnation(n); err != nil {
@@ -281,8 +454,8 @@ func (f *fsm) restart(n *fsmNode, snapChoice, commitChoice int64) error {
 	var use *fsmSnap
 	for i := len(snaps) - 1; i >= 0; i-- {
 		s := snaps[i]
-		if first > 0 && s.index+1 < first {
-			break // entries after this snapshot were compacted away: unusable
+		if (first > 0 && s.index+1 < first) || s.index < n.base {
+			break // entries after this snapshot were compacted away (or dropped when a later snapshot was installed): unusable
 		}
 		use = &snaps[i]
 		if snapChoice%3 != 2 || i == 0 {
@@ -290,17 +463,19 @@ func (f *fsm) restart(n *fsmNode, snapChoice, commitChoice int64) error {
 		}
 		snapChoice = 0 // one step older, then take it
 	}
-	if use == nil && first > 1 {
+	if use == nil && (first > 1 || n.base > 0) {
 		return fmt.Errorf("harness: no usable snapshot although the log starts at %d", first)
 	}
-	if use != nil && snapChoice%3 == 1 && first <= 1 {
+	if use != nil && snapChoice%3 == 1 && first <= 1 && n.base == 0 {
 		use = nil // the whole log is still there: replay from scratch
 	}
 	if n.applied > n.known {
 		n.known = n.applied
 	}
 	n.applied = 0
+	n.busy = false
 	n.snapReq = nil
+	n.instReq = nil
 	n.live = map[string]uint64{}
 	var rerr error
 	srv := n.srv
@@ -310,6 +485,9 @@ func (f *fsm) restart(n *fsmNode, snapChoice, commitChoice int64) error {
 			n.applied = use.index
 			n.snaps = append(n.snaps, *use)
 			h.s.Count("fault.restore_from_snapshot")
+			if rerr == nil && f.onState != nil {
+				f.onState(n, srv, use.index, "restore")
+			}
 		} else {
 			h.s.Count("fault.replay_from_scratch")
 		}
@@ -346,6 +524,17 @@ func (f *fsm) restart(n *fsmNode, snapChoice, commitChoice int64) error {
 	return nil
 }
 
+// commitRaftEntry appends an entry of raft's own (no FSM command) to the committed log.
+func (f *fsm) commitRaftEntry(t raft.LogType) {
+	idx := uint64(len(f.log) + 1)
+	f.log = append(f.log, &raft.Log{Index: idx, Term: 1, Type: t})
+	f.h.s.Logf("commit %d: (raft entry of type %d)", idx, t)
+	f.h.s.Count("probe.raft_own_entries_in_the_log")
+	ref := f.nodes[0]
+	ref.target = idx
+	f.h.waitFor("reference-applied", time.Minute, func() bool { return ref.applied >= idx || ref.applyErr != "" || len(f.h.s.Panics) > 0 })
+}
+
 // commit appends an operation to the committed log and lets the reference node apply it.
 func (f *fsm) commit(op *proto.RaftLog) bool {
 	data, err := op.Marshal()
@@ -360,6 +549,9 @@ func (f *fsm) commit(op *proto.RaftLog) bool {
 		f.created[op.CreateStreamOp.Stream.Name] = idx
 	case proto.Op_DELETE_STREAM:
 		delete(f.created, op.DeleteStreamOp.Stream)
+	case proto.Op_CREATE_CONSUMER_GROUP:
+		gid := op.CreateConsumerGroupOp.ConsumerGroup.Id
+		f.gcreate[gid] = append(f.gcreate[gid], idx)
 	}
 	f.ops[op.Op.String()]++
 	f.h.s.Logf("commit %d: %s", idx, strings.Join(strings.Fields(op.String()), " "))
@@ -389,12 +581,94 @@ func subset(ids []int32, mask int64) []int32 {
 	return out
 }
 
+// commitExpiries plays the controller for the expiry requests of the nodes' member timers: the removal
+// of the member is committed (marked as an expiry) if the controller's precondition check admits it -
+// whichever server asked, and whether or not that server still coordinates the group.
+func (f *fsm) commitExpiries() {
+	evs := f.expired
+	f.expired = nil
+	for _, e := range evs {
+		if f.h.stop || len(f.h.s.Panics) > 0 {
+			return
+		}
+		l := &proto.RaftLog{Op: proto.Op_LEAVE_CONSUMER_GROUP, LeaveConsumerGroupOp: &proto.LeaveConsumerGroupOp{GroupId: e.group, ConsumerId: e.consumer, Expired: true}}
+		if f.nodes[0].srv.metadata.checkLeaveConsumerGroupPreconditions(l) != nil {
+			f.h.s.Count("probe.expiry_of_a_member_already_gone")
+			continue
+		}
+		if f.commit(l) {
+			f.h.s.Count("probe.expiry_committed")
+		}
+	}
+}
+
+// requester returns the (leader, leader epoch) an ISR request carries. Normally the partition's current
+// ones; with staleops=1 sometimes those of a leader deposed by an operation that was committed between the
+// controller's check and the request's own commit (another replica, or the previous epoch), or none at all
+// (requests of servers that predate the fields). The controller's precondition check passes all of them.
+func (f *fsm) requester(p *partition, leader string, lepoch uint64, x int64) (string, uint64) {
+	if f.h.prog.Param("staleops", 0) != 1 {
+		return leader, lepoch
+	}
+	switch x % 12 {
+	case 7:
+		if lepoch > 0 {
+			f.h.s.Count("probe.isr_request_of_deposed_leader")
+			return leader, lepoch - 1
+		}
+	case 8:
+		reps := p.GetReplicas()
+		sort.Strings(reps)
+		for _, r := range reps {
+			if r != leader {
+				f.h.s.Count("probe.isr_request_of_deposed_leader")
+				return r, lepoch
+			}
+		}
+	case 9:
+		f.h.s.Count("probe.isr_request_without_leader")
+		return "", 0
+	}
+	return leader, lepoch
+}
+
+// fsmStreamConfig derives a stream configuration from x: fields set and unset in every combination, with
+// values that never remove messages (no retention limit that a marker message could fall under, no compaction).
+func fsmStreamConfig(x int64) *proto.StreamConfig {
+	c := &proto.StreamConfig{}
+	if x&1 != 0 {
+		c.SegmentMaxBytes = &proto.NullableInt64{Value: []int64{512, 2048, 1 << 20}[(x>>1)%3]}
+	}
+	if x&2 != 0 {
+		c.RetentionMaxMessages = &proto.NullableInt64{Value: 1 << 30}
+	}
+	if x&4 != 0 {
+		c.CompactEnabled = &proto.NullableBool{Value: false}
+	}
+	if x&8 != 0 {
+		c.MinIsr = &proto.NullableInt32{Value: int32(1 + (x>>4)%2)}
+	}
+	if x&16 != 0 {
+		c.AutoPauseTime = &proto.NullableInt64{Value: 0}
+	}
+	if x&32 != 0 {
+		c.SegmentMaxAge = &proto.NullableInt64{Value: 3600 * 1000}
+	}
+	if x&64 != 0 {
+		c.AutoPauseDisableIfSubscribers = &proto.NullableBool{Value: x&1 != 0}
+	}
+	if x&128 != 0 {
+		c.OptimisticConcurrencyControl = &proto.NullableBool{Value: x&2 != 0}
+	}
+	return c
+}
+
 // build resolves a generated operation against the reference node's state; nil when it does not apply.
 func (f *fsm) build(op hx.Op) *proto.RaftLog {
 	ref := f.nodes[0].srv
 	md := ref.metadata
 	existing := []string{}
-	for _, s := range fsmStreams {
+	for _, s := range f.streams {
 		if md.GetStream(s) != nil {
 			existing = append(existing, s)
 		}
@@ -409,11 +683,14 @@ func (f *fsm) build(op hx.Op) *proto.RaftLog {
 	}
 	switch op.K {
 	case "create":
-		name := pick(fsmStreams, op.Arg(0, 0))
+		name := pick(f.streams, op.Arg(0, 0))
 		nparts := 1 + int(op.Arg(1, 0))%int(f.h.prog.Param("maxparts", 3))
 		rfac := 1 + int(op.Arg(2, 0))%3
 		rot := int(op.Arg(3, 0)) % 3
 		st := &proto.Stream{Name: name, Subject: name + ".subj", CreationTimestamp: int64(1000 + len(f.log)), Config: &proto.StreamConfig{}}
+		if f.h.prog.Param("streamconfig", 0) == 1 {
+			st.Config = fsmStreamConfig(op.Arg(2, 0)*16 + op.Arg(3, 0))
+		}
 		for i := 0; i < nparts; i++ {
 			var reps []string
 			for k := 0; k < rfac; k++ {
@@ -446,7 +723,7 @@ func (f *fsm) build(op hx.Op) *proto.RaftLog {
 		ids := subset(partIDs(md.GetStream(name)), op.Arg(1, 0))
 		switch op.K {
 		case "pause":
-			l := &proto.RaftLog{Op: proto.Op_PAUSE_STREAM, PauseStreamOp: &proto.PauseStreamOp{Stream: name, Partitions: ids, ResumeAll: op.Arg(2, 0)%2 == 1}}
+			l := &proto.RaftLog{Op: proto.Op_PAUSE_STREAM, PauseStreamOp: &proto.PauseStreamOp{Stream: name, Partitions: ids, ResumeAll: op.Arg(2, 0)%2 == 1 && !avoidResumeAllPause}}
 			if md.checkPauseStreamPreconditions(l) != nil {
 				return nil
 			}
@@ -504,7 +781,8 @@ func (f *fsm) build(op hx.Op) *proto.RaftLog {
 			if len(cands) == 0 {
 				return nil
 			}
-			l := &proto.RaftLog{Op: proto.Op_SHRINK_ISR, ShrinkISROp: &proto.ShrinkISROp{Stream: name, Partition: id, ReplicaToRemove: pick(cands, op.Arg(2, 0)), Leader: leader, LeaderEpoch: lepoch}}
+			rl, re := f.requester(p, leader, lepoch, op.Arg(3, 0))
+			l := &proto.RaftLog{Op: proto.Op_SHRINK_ISR, ShrinkISROp: &proto.ShrinkISROp{Stream: name, Partition: id, ReplicaToRemove: pick(cands, op.Arg(2, 0)), Leader: rl, LeaderEpoch: re}}
 			if md.checkShrinkISRPreconditions(l) != nil {
 				return nil
 			}
@@ -530,7 +808,8 @@ func (f *fsm) build(op hx.Op) *proto.RaftLog {
 			if len(cands) == 0 {
 				return nil
 			}
-			l := &proto.RaftLog{Op: proto.Op_EXPAND_ISR, ExpandISROp: &proto.ExpandISROp{Stream: name, Partition: id, ReplicaToAdd: pick(cands, op.Arg(2, 0)), Leader: leader, LeaderEpoch: lepoch}}
+			rl, re := f.requester(p, leader, lepoch, op.Arg(3, 0))
+			l := &proto.RaftLog{Op: proto.Op_EXPAND_ISR, ExpandISROp: &proto.ExpandISROp{Stream: name, Partition: id, ReplicaToAdd: pick(cands, op.Arg(2, 0)), Leader: rl, LeaderEpoch: re}}
 			if md.checkExpandISRPreconditions(l) != nil {
 				return nil
 			}
@@ -540,6 +819,21 @@ func (f *fsm) build(op hx.Op) *proto.RaftLog {
 			for _, r := range isr {
 				if r != leader {
 					cands = append(cands, r)
+				}
+			}
+			if f.h.prog.Param("staleops", 0) == 1 && op.Arg(3, 0)%12 == 7 {
+				// the controller picked the new leader from the ISR it saw; a shrink committed in between took
+				// the replica out (the precondition check at proposal time only looks at the partition)
+				cands = nil
+				reps := p.GetReplicas()
+				sort.Strings(reps)
+				for _, r := range reps {
+					if !in[r] {
+						cands = append(cands, r)
+					}
+				}
+				if len(cands) > 0 {
+					f.h.s.Count("probe.leader_change_to_replica_outside_isr")
 				}
 			}
 			if len(cands) == 0 {
@@ -553,7 +847,7 @@ func (f *fsm) build(op hx.Op) *proto.RaftLog {
 		}
 	case "join":
 		gid := pick(fsmGroups, op.Arg(0, 0))
-		cid := pick(fsmConsumers, op.Arg(1, 0))
+		cid := pick(f.consumers, op.Arg(1, 0))
 		var streams []string
 		for i, s := range existing {
 			if op.Arg(2, 0)&(1<<uint(i)) != 0 {
@@ -572,7 +866,7 @@ func (f *fsm) build(op hx.Op) *proto.RaftLog {
 		}
 		if md.GetConsumerGroup(gid) == nil {
 			l := &proto.RaftLog{Op: proto.Op_CREATE_CONSUMER_GROUP, CreateConsumerGroupOp: &proto.CreateConsumerGroupOp{ConsumerGroup: &proto.ConsumerGroup{
-				Id: gid, Coordinator: pick(fsmBrokers, op.Arg(3, 0)), Members: []*proto.Consumer{{Id: cid, Streams: streams}}}}}
+				Id: gid, Coordinator: pick(f.coords, op.Arg(3, 0)), Members: []*proto.Consumer{{Id: cid, Streams: streams}}}}}
 			if md.checkCreateConsumerGroupPreconditions(l) != nil {
 				return nil
 			}
@@ -604,7 +898,7 @@ func (f *fsm) build(op hx.Op) *proto.RaftLog {
 		if md.GetConsumerGroup(gid) == nil {
 			return nil
 		}
-		l := &proto.RaftLog{Op: proto.Op_CHANGE_CONSUMER_GROUP_COORDINATOR, ChangeConsumerGroupCoordinatorOp: &proto.ChangeConsumerGroupCoordinatorOp{GroupId: gid, Coordinator: pick(fsmBrokers, op.Arg(1, 0))}}
+		l := &proto.RaftLog{Op: proto.Op_CHANGE_CONSUMER_GROUP_COORDINATOR, ChangeConsumerGroupCoordinatorOp: &proto.ChangeConsumerGroupCoordinatorOp{GroupId: gid, Coordinator: pick(f.coords, op.Arg(1, 0))}}
 		if md.checkChangeGroupCoordinatorPreconditions(l) != nil {
 			return nil
 		}
@@ -626,6 +920,7 @@ func fsmDigest(srv *Server) map[string]string {
 		d[k+"/config"] = st.GetConfig().String()
 		d[k+"/created"] = fmt.Sprint(st.GetCreationTime().UnixNano())
 		d[k+"/tombstoned"] = fmt.Sprint(st.IsTombstoned())
+		d[k+"/resume-all"] = fmt.Sprint(st.GetResumeAll())
 		for id, p := range st.GetPartitions() {
 			pk := fmt.Sprintf("%s/partition/%d", k, id)
 			simrt.RLock(&p.mu)
@@ -732,11 +1027,29 @@ func lastElem(k string) string {
 
 // runFSM drives one history. check is called with the settled cluster at the end (and at
 // intermediate settle points when mid is true).
-func runFSM(t *testing.T, prog *hx.Program, dec *simrt.Decider, verbose bool, check func(f *fsm, final bool)) *hx.Outcome {
+func runFSM(t *testing.T, prog *hx.Program, dec *simrt.Decider, verbose bool, check func(f *fsm, final bool), setup func(f *fsm)) *hx.Outcome {
 	var f *fsm
 	oc := runH3(t, prog, dec, verbose, 0, func(h *h3) {
-		f = &fsm{h: h, created: map[string]uint64{}, ops: map[string]int{}}
+		f = &fsm{h: h, created: map[string]uint64{}, ops: map[string]int{}, gcreate: map[string][]uint64{}}
 		nn := int(prog.Param("nodes", 3))
+		f.streams, f.consumers = fsmStreams, fsmConsumers
+		if prog.Param("names", 0) == 1 {
+			f.streams, f.consumers = fsmStreamsOdd, fsmConsumersOdd
+		}
+		if prog.Param("names", 0) == 2 {
+			f.streams = []string{"sa", cursorsStream, activityStream, "sb"} // the server's own streams go through the same state machine
+		}
+		f.coords = append([]string(nil), fsmBrokers...)
+		if prog.Param("obscoord", 0) == 1 {
+			f.coords = nil
+			for i := 0; i < nn; i++ {
+				f.coords = append(f.coords, fsmServerID(i))
+			}
+			f.coords = append(f.coords, fsmBrokers[:2]...)
+		}
+		if setup != nil {
+			setup(f)
+		}
 		for i := 0; i < nn; i++ {
 			n := &fsmNode{idx: i, dir: filepath.Join(h.dir, fmt.Sprintf("fsm%d", i)), live: map[string]uint64{}}
 			f.nodes = append(f.nodes, n)
@@ -770,7 +1083,12 @@ func runFSM(t *testing.T, prog *hx.Program, dec *simrt.Decider, verbose bool, ch
 			if h.stop || h.oc.Trouble != "" || len(h.s.Panics) > 0 {
 				break
 			}
+			f.commitExpiries()
 			switch op.K {
+			case "poll":
+				if f.onPoll != nil {
+					f.onPoll(f.nodes[int(op.Arg(1, 0))%nn], op.Arg(2, 0))
+				}
 			case "snap":
 				n := f.nodes[1+int(op.Arg(0, 0))%(nn-1)]
 				f.snapshot(n, []uint64{0, 2, 10240}[int(op.Arg(1, 0))%3])
@@ -781,6 +1099,24 @@ func runFSM(t *testing.T, prog *hx.Program, dec *simrt.Decider, verbose bool, ch
 						h.oc.Trouble = err.Error()
 					} else if len(h.s.Panics) == 0 {
 						h.fail("C06/restart", "C06/restart/failed", "restart of node %d failed: %v", n.idx, err)
+					}
+				} else if prog.Param("restartcheck", 0) == 1 && op.Arg(3, 0)%2 == 0 {
+					// the state right after a restart is judged, not only what later operations leave of it
+					h.s.Count("probe.judged_right_after_restart")
+					if settle() && check != nil && len(h.s.Panics) == 0 {
+						check(f, false)
+					}
+				}
+			case "install":
+				n := f.nodes[1+int(op.Arg(0, 0))%(nn-1)]
+				if !n.up || n.applyErr != "" || n.applied >= uint64(len(f.log)) {
+					break
+				}
+				if snap := f.refSnapshot(); snap != nil && snap.index > n.applied {
+					n.instReq = snap
+					if op.Arg(1, 0)%2 == 0 {
+						// sometimes wait for it, so that the next operations find the installed state
+						h.waitFor("installed", time.Minute, func() bool { return n.instReq == nil && !n.busy || n.applyErr != "" || len(h.s.Panics) > 0 })
 					}
 				}
 			case "advance":
@@ -798,6 +1134,9 @@ func runFSM(t *testing.T, prog *hx.Program, dec *simrt.Decider, verbose bool, ch
 				if l == nil {
 					f.skipped++
 					continue
+				}
+				if prog.Param("raftentries", 0) == 1 && op.Arg(2, 0)%5 == 3 {
+					f.commitRaftEntry([]raft.LogType{raft.LogNoop, raft.LogConfiguration, raft.LogBarrier}[int(op.Arg(1, 0))%3])
 				}
 				if !f.commit(l) && len(h.s.Panics) == 0 && h.oc.Trouble == "" {
 					ref := f.nodes[0]
@@ -826,6 +1165,16 @@ func runFSM(t *testing.T, prog *hx.Program, dec *simrt.Decider, verbose bool, ch
 		}
 		// release files
 		for _, n := range f.nodes {
+			if n.up && (n.busy || n.applied < n.target || len(h.s.Panics) > 0) {
+				// the run was cut short (violation, panic) while this node applies, or a task of the server
+				// panicked (possibly holding a lock): closing the metadata store can deadlock, and the run
+				// would idle to the horizon through every re-arming member timer. The node is killed instead,
+				// as a restart does.
+				h.s.Crash(n.node)
+				n.up = false
+				releaseBoltLock(n.store)
+				continue
+			}
 			if n.up {
 				srv, store := n.srv, n.store
 				h.do(n.node, "fsm-close", func() {
